@@ -37,6 +37,10 @@ template <class P> void set_over(P&, float, long) {}
 static std::vector<Q> vcomb(const Q &a, const std::vector<Q> &f, const Q &b, const std::vector<Q> &g) { std::vector<Q> h(f.size()); for (size_t i = 0; i < f.size(); ++i) h[i] = a * f[i] + b * g[i]; return h; }
 static bool veq(const std::vector<Q> &x, const std::vector<Q> &y) { if (x.size() != y.size()) return false; for (size_t i = 0; i < x.size(); ++i) if (x[i].poison || y[i].poison || x[i].v != y[i].v) return false; return true; }
 
+// amg_cycle: initial guesses of the two public cycle(rhs, x) calls (set by execute2; the harness is single threaded)
+static std::vector<Q> g_x0, g_y0;
+static std::vector<Q> matvec(const Mat &A, const std::vector<Q> &x) { std::vector<Q> y(A.n, Q(0)); for (long i = 0; i < A.n; ++i) for (auto j = A.ptr[i]; j < A.ptr[i+1]; ++j) y[i] += A.val[j] * x[A.col[j]]; return y; }
+
 template <template <class> class C, template <class> class R>
 struct Cyc {
     typedef amgcl::amg<Backend, rec<C>::template type, R> AMG;
@@ -48,6 +52,10 @@ struct Cyc {
     static std::vector<Q> apply(AMG &amg, const std::vector<Q> &f) {
         NVec F(f), X(f.size()); for (size_t i = 0; i < f.size(); ++i) X[i] = Q::poisoned();    // apply must overwrite x
         amg.apply(F, X); std::vector<Q> x(f.size()); for (size_t i = 0; i < f.size(); ++i) x[i] = X[i]; return x;
+    }
+    // the PUBLIC amg::cycle(rhs, x): one cycle from the caller's x (not cleared)
+    static std::vector<Q> cycle(AMG &amg, const std::vector<Q> &f, const std::vector<Q> &x0) {
+        NVec F(f), X(x0); amg.cycle(F, X); std::vector<Q> x(f.size()); for (size_t i = 0; i < f.size(); ++i) x[i] = X[i]; return x;
     }
     static Result run(const std::string &op, const Hdr &h, const RelaxPrm &rp, const Tail &t,
                       const std::vector<Q> &f, const std::vector<Q> &g, const Q &a, const Q &b) {
@@ -73,7 +81,17 @@ struct Cyc {
             if (symA || h.kind != 3) for (size_t k = 0; k < g_rec.size(); ++k)
                 if (!dense_eq(dense(*g_rec[k].second), dtrans(dense(*g_rec[k].first), g_rec[k].first->ncols))) {
                     r.fail(std::string("restriction is not the transpose of the prolongation (R != P^T) on level ") + std::to_string(k) + (h.kind == 3 ? " for smoothed_aggr_emin on a symmetric matrix" : "")); break; }
-            if (op == "amg_apply") {
+            if (op == "amg_cycle") {
+                // x <- S x + B f is affine in (f, x), and a solution of A x = f is a fixed point of every cycle
+                std::vector<Q> fs = matvec(h.A, g_x0);
+                std::vector<Q> c1 = cycle(amg, f, g_x0), c2 = cycle(amg, g, g_y0), c3 = cycle(amg, fs, g_x0);
+                l << c1 << c2 << c3;
+                std::vector<Q> c4 = cycle(amg, vcomb(a, f, b, g), vcomb(a, g_x0, b, g_y0));
+                if (!veq(c3, g_x0)) r.fail("cycle(A x, x) != x: the exact solution is not a fixed point of the cycle");
+                if (!veq(c4, vcomb(a, c1, b, c2))) r.fail("cycle(a f + b g, a x + b y) != a cycle(f, x) + b cycle(g, y)");
+                if (!veq(cycle(amg, f, g_x0), c1)) r.fail("cycle(f, x) differs between the first and a later call on the same object");
+                r.nontrivial = nl >= 2 && n > 1; r.tag("cycle"); if (t.npre == 0) r.tag("npre0"); if (t.npost == 0) r.tag("npost0");
+            } else if (op == "amg_apply") {
                 std::vector<Q> hh = vcomb(a, f, b, g);
                 std::vector<Q> x1 = apply(amg, f), x2 = apply(amg, g), x3 = apply(amg, f), x4 = apply(amg, hh);
                 l << x1 << x2 << x3 << x4;
@@ -161,7 +179,7 @@ static Tail parse_tail(Cur &c) { Tail t; t.npre = c.nat(); t.npost = c.nat(); t.
 
 static Result execute2(const Toks &t) {
     Cur c(t); const std::string &op = t[0];
-    if (op != "amg_apply" && op != "amg_bmat") return Result("bad-op");
+    if (op != "amg_apply" && op != "amg_bmat" && op != "amg_cycle") return Result("bad-op");
     Hdr h = parse_hdr(c); RelaxPrm rp = parse_relax(c); Tail tl = parse_tail(c);
     std::vector<Q> f, g; Q a(0), b(0);
     if (op == "amg_apply") {
@@ -169,11 +187,16 @@ static Result execute2(const Toks &t) {
         f = c.vec(); g = c.vec(); auto f2 = c.vec(); auto hh = c.vec(); a = c.rat(); b = c.rat();
         if ((long)f.size() != h.A.n || (long)g.size() != h.A.n || !veq(f, f2) || !veq(hh, vcomb(a, f, b, g))) throw bad_input("vectors");
     }
+    if (op == "amg_cycle") {
+        long K = c.nat(); if (K != 5) throw bad_input("K");
+        f = c.vec(); g_x0 = c.vec(); g = c.vec(); g_y0 = c.vec(); auto fs = c.vec(); a = c.rat(); b = c.rat();
+        if ((long)f.size() != h.A.n || (long)g.size() != h.A.n || (long)g_x0.size() != h.A.n || (long)g_y0.size() != h.A.n || !veq(fs, matvec(h.A, g_x0))) throw bad_input("vectors");
+    }
     c.expect_end();
     return by_kind(op, h, rp, tl, f, g, a, b);
 }
 
-static std::string make_line2(Rng &rng, const Opts &o, bool bmat) {
+static std::string make_line2(Rng &rng, const Opts &o, bool bmat, bool cyc = false) {
     Hdr h; h.kind = rng.range(0, 3);
     long n = bmat ? rng.range(2, o.thorough() ? 12 : 8) : rng.range(2, o.thorough() ? 24 : 12);
     int fam = (int)rng.range(0, 4);
@@ -194,17 +217,18 @@ static std::string make_line2(Rng &rng, const Opts &o, bool bmat) {
         rp.rk = rng.range(0, 2); t.npre = t.npost = 1; t.ncycle = rng.coin(3, 4) ? 1 : 2; t.pre_cycles = 1;
     }
     Result dummy = run(h, {}, false);    // records the transfer operators (damped Jacobi hierarchy: same P, R)
-    Line l; l << (bmat ? "amg_bmat" : "amg_apply") << h.kind << h.s << h.nt << h.ce << h.dc << h.ml << h.ar << h.A << (long)g_rec.size();
+    Line l; l << (bmat ? "amg_bmat" : cyc ? "amg_cycle" : "amg_apply") << h.kind << h.s << h.nt << h.ce << h.dc << h.ml << h.ar << h.A << (long)g_rec.size();
     for (auto &pr : g_rec) { l << *pr.first; l << *pr.second; }
     l << rp.rk; if (rp.rk == 0 || rp.rk == 3) l << rp.damping; else if (rp.rk == 4) { l << rp.degree << rp.higher << rp.lower << rp.scale; }
     l << t.npre << t.npost << t.ncycle << t.pre_cycles;
-    if (!bmat) { auto f = gen_vec(rng, h.A.n), g = gen_vec(rng, h.A.n); Q a = rng.rat(4), b = rng.rat(4); l << 4L << f << g << f << vcomb(a, f, b, g) << a << b; }
+    if (cyc) { auto f = gen_vec(rng, h.A.n), x0 = gen_vec(rng, h.A.n), g = gen_vec(rng, h.A.n), y0 = gen_vec(rng, h.A.n); Q a = rng.rat(4), b = rng.rat(4); l << 5L << f << x0 << g << y0 << matvec(h.A, x0) << a << b; }
+    else if (!bmat) { auto f = gen_vec(rng, h.A.n), g = gen_vec(rng, h.A.n); Q a = rng.rat(4), b = rng.rat(4); l << 4L << f << g << f << vcomb(a, f, b, g) << a << b; }
     return l.get();
 }
 
 static void generate2(Rng &rng, const Opts &o, std::vector<std::string> &lines) {
     long N = o.cases > 0 ? o.cases : (o.thorough() ? 1200 : 120);
-    for (long k = 0; k < N; ++k) lines.push_back(make_line2(rng, o, k % 4 == 3));
+    for (long k = 0; k < N; ++k) lines.push_back(make_line2(rng, o, k % 4 == 3, k % 4 == 1));
     lines.push_back("amg_apply 0 11184811/16777216 1 2 1 10 0 1 1 1 0 1 0 7 1 1 1 1 4 1 1 1 1 1 1 1 1 0 0");    // unknown relaxation kind
 }
 
